@@ -2,8 +2,7 @@
 from harness import common as C
 from harness import l2
 
-FILES = ["Engine/Toposort.v", "Engine/ToposortProof.v", "Engine/Tagged.v", "Engine/Tower.v",
-         "Engine/Run08.v", "Engine/TaggedProof.v", "Engine/TowerAlg.v", "Engine/FwdCorrect.v", "Engine/FwdStep.v", "Engine/FwdEval.v", "Props/C08.v"]
+FILES = ["Engine/Toposort.v", "Engine/ToposortProof.v", "Engine/Tagged.v", "Engine/Tower.v", "Engine/Run08.v", "Engine/TaggedProof.v", "Engine/TowerAlg.v", "Engine/FwdCorrect.v", "Engine/FwdStep.v", "Engine/FwdEval.v", "Engine/TowerRing.v", "Engine/MixInterp.v", "Engine/MixStep.v", "Engine/MixBackward.v", "Engine/MixEval.v", "Props/C08.v"]
 RULE = ("random closed programs of the object language with nested grad / forward-mode derivative operators "
         "(depth 2..4, every mode assignment arises), inner bodies closing over any subset of the enclosing "
         "variables, value-steered branches; plus a systematic closure family (one binary primitive - operators and a "
@@ -63,7 +62,7 @@ def replay(rp):
     return 0 if codes == [0] else 1
 
 
-TECHNIQUE = "Coq model of tracer.py/core.py (tagged evaluator over one global node store) + tower-of-dual-numbers spec; theorems in Props/C08.v; exact three-way correspondence (autograd / model / spec) on generated nested programs"
+TECHNIQUE = "Coq theorem nested_correct: the model of tracer.py/core.py (tagged evaluator: dynamic trace ids, boxes, wrapper, JVP/VJP nodes, one global node store, toposort, backward pass) computes the tag-free tower-of-dual-numbers semantics for every program, every nesting and every mixture of modes; model tied to /repo by exact three-way correspondence (autograd / model / spec) on generated nested programs incl. faults and worker threads"
 DESIGN_REF = "DESIGN.md 4.8"
-LEVEL_TEXT = "see Props/C08.v and DESIGN.md 4.8 (what is proved about the tagged evaluator, and what is only tied by correspondence)"
+LEVEL_TEXT = "Proved in full on the model: C08_nested_correct (all programs over the differentiable primitives and sign, any depth, any mode mixture, any counter start, any interference). The model is hand-written and tied to tracer.py/core.py by the correspondence run."
 LEVEL_NOTE = "Trusted: Coq kernel; the hand-written tagged evaluator is tied to tracer.py/core.py only by the correspondence run; theorems are about the model."
